@@ -811,6 +811,7 @@ func (b *Builder) Position(o interface{}, x int) {
 		b.setErr(fmt.Errorf("%T does not support position, only type bit", o))
 	} else {
 		i.Position = x
+		i.positionSet = true
 	}
 }
 
@@ -838,6 +839,7 @@ func (b *Builder) EnumValue(o interface{}, x int) {
 		b.setErr(fmt.Errorf("%T does not support value, only type enum", o))
 	} else {
 		i.val = x
+		i.valSet = true
 	}
 }
 
